@@ -69,6 +69,19 @@ def o_fields(inp):
         mw = _make_mw(inp)
     fields, entry, blocks = _mk(inp)
     lib = Library(blocks)
+    if inp.get("prior"):
+        # sort -> edit -> sort: the entry has been through other (or the same) field middlewares in place before and
+        # its field list was then put back by hand; what counts is the content it has now
+        cls.append("resorted-after-edit")
+        for ps in inp["prior"]:
+            try:
+                pm = _make_mw(dict(ps, inplace=True))
+            except ValueError:
+                continue
+            pm.transform(lib)
+        entry.fields = list(fields)
+        for f, k in zip(fields, keys):
+            f.key = k
     others_before = [canon(b) for b in blocks if b is not entry]
     out = libgen.maybe_preuse(mw, inp["keys"], same=lib).transform(lib)
     if len(out.blocks) != 4:
@@ -134,6 +147,24 @@ def o_fields(inp):
 SUBS = {"fields": o_fields}
 
 
+def priors_for(case):
+    """Earlier in-place runs the entry went through before its fields were edited (picked by a hash of the case)."""
+    import zlib
+
+    same = {k: case[k] for k in ("mw", "order", "case_sensitive") if k in case}
+    table = [
+        [{"mw": "alpha"}],
+        [same],
+        [{"mw": "custom", "order": ["b", "a"], "case_sensitive": False}],
+        [{"mw": "custom", "order": list(case.get("order") or ["c"]), "case_sensitive": not case.get("case_sensitive", False)}],
+        [{"mw": "alpha"}, same],
+        [same, {"mw": "alpha"}],
+        [{"mw": "normalize"}],
+        [same, same],
+    ]
+    return table[zlib.crc32(repr(sorted(case.items())).encode()) % len(table)]
+
+
 def w_enum(acc, nfields, first_key, orders_slice, inplace_modes):
     orders = all_orders()
     lo, hi = orders_slice
@@ -141,12 +172,17 @@ def w_enum(acc, nfields, first_key, orders_slice, inplace_modes):
     for rest in itertools.product(KEYS, repeat=max(0, nfields - 1)):
         keys = ([first_key] + list(rest)) if nfields else []
         for inplace in inplace_modes:
+            cases = []
             if lo == 0:
-                acc.run("fields", o_fields, {"keys": keys, "mw": "alpha", "inplace": inplace}, True)
-                acc.run("fields", o_fields, {"keys": keys, "mw": "normalize", "inplace": inplace}, True)
+                cases.append({"keys": keys, "mw": "alpha", "inplace": inplace})
+                cases.append({"keys": keys, "mw": "normalize", "inplace": inplace})
             for order in orders[lo:hi]:
                 for cs in (False, True):
-                    acc.run("fields", o_fields, {"keys": keys, "mw": "custom", "order": order, "case_sensitive": cs, "inplace": inplace}, True)
+                    cases.append({"keys": keys, "mw": "custom", "order": order, "case_sensitive": cs, "inplace": inplace})
+            for c in cases:
+                acc.run("fields", o_fields, c, True)
+                if 2 <= nfields <= 3:
+                    acc.run("fields", o_fields, dict(c, prior=priors_for(c)), True)
 
 
 def w_large(acc, n):
@@ -177,7 +213,9 @@ def w_random(acc, n, seed):
 
     keys = st.lists(st.sampled_from(KEYS + ["title", "Title", "TITLE", "year", "É", "é", "", "ß", "SS", "ss", "ſ", "S", "s", "İ", "i̇", "ǅ", "ǆ"]), max_size=8)
     order = st.lists(st.sampled_from(ORDER_KEYS + ["title", "Title", "year", "ab", "Ab", "É", "é", "ß", "ss", "ſ", "s"]), max_size=6)
-    strat = st.fixed_dictionaries({"keys": keys, "mw": st.sampled_from(["alpha", "custom", "custom", "normalize"]), "order": order, "case_sensitive": st.booleans(), "inplace": st.booleans()})
+    prior1 = st.one_of(st.just({"mw": "alpha"}), st.just({"mw": "normalize"}), st.fixed_dictionaries({"mw": st.just("custom"), "order": order, "case_sensitive": st.booleans()}))
+    strat = st.fixed_dictionaries({"keys": keys, "mw": st.sampled_from(["alpha", "custom", "custom", "normalize"]), "order": order, "case_sensitive": st.booleans(), "inplace": st.booleans(),
+                                   "prior": st.one_of(st.just([]), st.just([]), st.lists(prior1, min_size=1, max_size=3))})
     harness.run_hyp(acc, "fields", o_fields, strat, n, seed)
 
 
@@ -209,6 +247,8 @@ def run(chk):
         "case_sensitive, in-place/copy), the entry embedded between a string, another entry and a comment. Oracle: "
         "permutation + non-decreasing sort keys + stability (sorting), first-occurrence order + last-wins value "
         "(normalisation), untouched entry attributes and neighbours, idempotence, constructor rejects exactly the "
-        "orders with duplicates after folding. Non-trivial: the order changed, a tie occurred or keys collided."
+        "orders with duplicates after folding. Histories: for 2-3 fields (and at random) the same case is repeated on an "
+        "entry that went through one or two earlier in-place field middlewares (the same one, another order, the other "
+        "case mode, alphabetical, normalisation) and whose field list was then put back - sort, edit, sort. Non-trivial: the order changed, a tie occurred or keys collided."
     )
-    chk.required_classes = ["alpha", "custom", "normalize", "case-collision", "tie", "ctor-rejects-duplicates", "copy", "inplace"]
+    chk.required_classes = ["alpha", "custom", "normalize", "case-collision", "tie", "ctor-rejects-duplicates", "copy", "inplace", "resorted-after-edit"]
